@@ -39,8 +39,12 @@ claim('C08', 'Proof by exhaustive symbolic execution of the real Filter.run (rea
       'created, stop event set, run() returns for clean exits and raises for errors (Python in-flight-exception semantics), announcement exactly once with the right kind before '
       'teardown iff the policy covers it; real Filter.init: exit_after forms become the right deadline, obey policy of on_exit_msg; real Filter.loop_once: clean exit at the end of '
       'the first iteration whose clock reached the deadline. Whole-pipeline termination is NOT decided.', '6-C08')
+claim('C18', 'Proof over the real Filter.run/init/exit/fini (abstract stages, ghost event log) and the real OpenFilterLineage methods of: exactly one START, emitted first and before '
+      'the heartbeat thread starts; one run id per emitter on every event; the heartbeat thread emits RUNNING* then exactly one COMPLETE only after its stop event. The terminal-event '
+      'clauses (exactly one terminal event, COMPLETE iff clean) FAIL on this tree at 7 emitting call sites and are recorded as known findings (one per call site and clause); they are '
+      'therefore NOT established. A new emitting call site or a change of the proved clauses is a violation.', '6-C18')
 _todo = 'check not built yet in this session (planned, see DESIGN.md section 6); not claimed until its obligations are discharged'
-for _p in ( 'C11', 'C12', 'C13', 'C14', 'C15', 'C18'):
+for _p in ( 'C11', 'C12', 'C13', 'C14', 'C15'):
     NA[_p] = _todo
 NA['C06'] = ('liveness under fairness and bounded-time recovery across several processes: not expressible as pre/postconditions or invariants of one call; '
              'termination is not proved by this verifier (DESIGN.md section 7); its safety ingredients are proved under C02/C04/C05')
